@@ -80,7 +80,7 @@ P = {
             "Generated messages/attributes are formatted by the real JsonFormatter; Python's json parser must consume exactly one object, "
             "all built-in fields and custom attributes must be recovered exactly, compact output must contain no line break.",
             "Python json is the reference parser.", "drv_fmt", "5.13"),
-    "C14": ("exploration", "libFuzzer + ASan/UBSan targets (byte-level and grammar-directed) for every formatter/filter; hang confirmation by re-run",
+    "C14": ("exploration", "libFuzzer + ASan/UBSan targets (byte-level and grammar-directed) for every formatter/filter; hang confirmation by re-run; valgrind memcheck replay of the kept corpus; deterministic many-threads and many-wildcards workloads; ASan poisoning of reused caller buffers",
             "Coverage-guided fuzzing (clang libFuzzer, ASan+UBSan) of pattern/patgram/func/pretty/json/sentry/catfilter/regexp/filters targets "
             "from a committed seed corpus; time-outs are re-run alone with a large budget to separate slow from hung.",
             "Field widths above 99999 are out of scope (resource exhaustion as requested).", "fuzz", "5.14"),
@@ -101,7 +101,7 @@ P = {
             "Generated messages/attribute sets are formatted by the real SentryFormatter; every obligation of the statement is checked "
             "on the parsed event and event ids are accumulated in a set over the whole run.",
             "Python json is the reference parser.", "drv_fmt", "5.18"),
-    "C19": ("exploration", "child process per configuration with captured stdout/stderr/files vs composed references; handler-identity automaton",
+    "C19": ("exploration", "child process per configuration with captured stdout/stderr/files vs composed references; handler-identity automaton; shape and thread-column monitor for the pretty formatter",
             "INI key subsets / configure() argument tuples are applied in child processes that emit a stream through Qt's macros; "
             "captured outputs are compared with the composition of the C12/C15/C05 references; install/restore/foreign histories are "
             "enumerated against a reference automaton.",
